@@ -115,3 +115,23 @@ package server
 //@   before call (*github.com/go-chi/chi/v5.Mux).Handle(_, p, _): assert @no_unauthenticated_handle false
 //@   before call invoke github.com/go-chi/chi/v5.Router.Get(r, _, _): assert @authenticated_routes_carry_the_middleware r == authRouter && authRouterOK
 //@   before call invoke github.com/go-chi/chi/v5.Router.Post(r, _, _): assert @authenticated_post_carries_the_middleware r == authRouter && authRouterOK
+//@
+//@ macro keyTarget(s *Server, k string) *config.KeyConfig = ite(s.Config.Keys[k].Alias == "", s.Config.Keys[k], s.Config.Keys[s.Config.Keys[k].Alias])
+//@ macro mayUse(u authmodel.UserInfo, kc *config.KeyConfig) bool = purecallb("invoke github.com/sassoftware/relic/v8/internal/authmodel.UserInfo.Allowed", u, kc)
+//@ macro listed(s *Server, u authmodel.UserInfo, k string) bool = inmap(s.Config.Keys, k) && !s.Config.Keys[k].Hide && \
+//@        keyTarget(s, k) != nil && !keyTarget(s, k).Hide && mayUse(u, keyTarget(s, k))
+//@
+//@ func (*Server).serveListKeys
+//@   property C04
+//@   requires keysWellFormed(s.Config)
+//@   ghost members set = emptyset()
+//@   ghost pos intmap = emptyintmap()
+//@   on call builtin append(sl, e): members = setadd(members, e[0]); pos = mapput(pos, e[0], len(sl))
+//@   loop 0 sig "for key, keyConf := range s.Config.Keys" invariant forall(k, visited(k) ==> inmap(s.Config.Keys, k))
+//@   loop 0 invariant @members_are_the_listed_keys_seen_so_far forall(k, in(members, k) == (visited(k) && listed(s, userInfo, k)))
+//@   loop 0 invariant @slice_elements_are_members forall(j, 0, len(keys), in(members, keys[j]))
+//@   loop 0 invariant @members_are_in_the_slice forall(k, in(members, k) ==> 0 <= mapat(pos, k) && mapat(pos, k) < len(keys) && keys[mapat(pos, k)] == k)
+//@   before call writeJSON(_, data): assert @listing_is_exactly_the_visible_usable_keys \
+//@        forall(k, elem(unbox(data, []string), k) == listed(s, userInfo, k))
+//@   before call writeJSON(_, data): assert @listed_keys_can_be_signed_with \
+//@        forall(k, in(members, k) ==> keyTarget(s, k).Token != "")
